@@ -253,8 +253,8 @@ pub fn replay(case: &Value, _kf: &KnownFindings) -> Result<(), Failure> {
 pub fn history_strategy() -> impl Strategy<Value = History> {
     (c08::history_strategy(), gen::cfg_strategy(), proptest::collection::vec(any::<u32>(), 0..5)).prop_flat_map(|(mut h, cfg2, script)| {
         // C08's plan-changing histories, on every board and with join bias; plus re-joins with CFLists
-        if h.cfg.front.buf_size() == 256 {
-            h.cfg.board = cfg2.board; // small radio buffers exist for board (14, 0) only
+        if h.cfg.front.buf_size() == 256 && h.cfg.front.queue_depth() == 4 {
+            h.cfg.board = cfg2.board; // small radio buffers and depth-1 queues exist for board (14, 0) only
         }
         if h.cfg.region.fixed() {
             h.cfg.join_bias = cfg2.join_bias.or(if cfg2.region.fixed() { None } else { Some((1 + (cfg2.board.0 % 8), 1)) });
